@@ -16,3 +16,7 @@ OBLIGATIONS = [
        'L<=3 entries, 0..2 stub features (covering or not), 2D and 3D; depth exactly 0 for the forced case', cases_thorough=[(1, 0, 0), (2, 2, 0), (3, 2, 0), (3, 1, 1), (4, 1, 0)]),
     ob('C03.gravity', 'h_c03_gravity', 'fp', [()], ['gravity norm is the configured magnitude', 'end'], 'all points'),
 ]
+# "regardless of ... how the request is batched": the batching-layout obligations of C01 (every block of a batched 3D / 2D answer equals the stand-alone answer,
+# with symbolic world constants incl. the force flag) are run here as well - a cursor slip in the 2D projection scales the temperature or tag slot of a batch
+import C01 as _C01
+OBLIGATIONS = OBLIGATIONS + [dict(o, id=o['id'].replace('C01.', 'C03.batch.')) for o in _C01.OBLIGATIONS if o['id'] in ('C01.layout3', 'C01.layout2')]
